@@ -107,7 +107,9 @@ class Flow(object):
             pscope = self.scope.parent
             if pscope:
                 snames = pscope.names
-                if isinstance(self.scope, ClassScope):
+                if isinstance(self.scope, SourceScope):
+                    return MergedDict(self.scope._global_names, snames)
+                elif isinstance(self.scope, ClassScope):
                     return MergedDict(snames)
                 else:
                     outer_names = set(snames).difference(self.scope.locals)
